@@ -58,6 +58,36 @@ def yawToHeadingOld (yaw : Rat) : Rat := fmod (90 - yaw + 180) 360
 
 def headingToYawOld (heading : Rat) : Rat := fmod (90 - heading + 180) 360 - 180
 
+/-! ### Calls: how the documented signature `(angle, deg=True)` binds the unit
+
+Both functions are documented as `f(angle, deg=True)`: the unit flag is the SECOND positional parameter and the keyword
+`deg`; it is tested with `if deg:`, so every truthy / falsy spelling (`True`/`False`, `1`/`0`, `np.True_`/`np.False_`)
+means the same.  A call states the unit in one of three ways; what it asks for depends only on the truth value. -/
+
+inductive UnitArg where
+  /-- `f(angle)` -/
+  | omitted
+  /-- `f(angle, flag)` -/
+  | positional (truthy : Bool)
+  /-- `f(angle, deg=flag)` -/
+  | keyword (truthy : Bool)
+  deriving Repr, DecidableEq
+
+/-- the value the parameter `deg` is bound to: `True` by default -/
+def UnitArg.deg : UnitArg → Bool
+  | .omitted => true
+  | .positional b => b
+  | .keyword b => b
+
+/-- the half turn of the branch taken: `180.0`, or `piD` (= the double `math.pi`) when `deg` is false -/
+def halfTurn (piD : Rat) (deg : Bool) : Rat := if deg then 180 else piD
+
+/-- `yaw_to_heading(yaw[, flag | deg=flag])` -/
+def yawToHeadingCall (piD : Rat) (u : UnitArg) (yaw : Rat) : Rat := yawToHeadingH (halfTurn piD u.deg) yaw
+
+/-- `heading_to_yaw(heading[, flag | deg=flag])` -/
+def headingToYawCall (piD : Rat) (u : UnitArg) (heading : Rat) : Rat := headingToYawH (halfTurn piD u.deg) heading
+
 /-! ### The same formulas with every `+` / `-` rounded
 
 `rnd` is the rounding of the floating-point format (for the real code: IEEE-754 binary64, round to nearest even).
@@ -120,6 +150,8 @@ def roundDouble (q : Rat) : Rat :=
 #guard ofBits 0x7FF0000000000000 == none
 #guard yawToHeading 0 == 90 && yawToHeading 300 == 150 && headingToYaw 300 == 150 && headingToYaw 270 == -180
 #guard yawToHeadingOld 0 == 270 && yawToHeadingOld 300 == -30 && headingToYawOld 300 == -210
+#guard headingToYawCall (355 / 113) (.positional true) 270 == -180 && headingToYawCall (355 / 113) .omitted 270 == -180
+#guard headingToYawCall (355 / 113) (.positional false) 0 == 355 / 226 && headingToYawCall (355 / 113) (.keyword false) 0 == 355 / 226
 #guard fmod (-7) 3 == -1 && fmod 7 (-3) == 1 && fmod (-15/2) 2 == -3/2
 
 end FeVerif.Angle
